@@ -24,7 +24,7 @@ VERIF = os.path.dirname(os.path.dirname(os.path.abspath(__file__)))
 # searches for the proof (which facts are in scope), never what is assumed.
 # exec_allows_no_decreases_clause: the fn is checked for partial correctness only (its loops get no termination proof);
 # the unit must report termination of that fn as NOT decided.
-HINT_KINDS = ('before', 'after', 'inarm', 'tail', 'head', 'loophead', 'loopend')
+HINT_KINDS = ('before', 'after', 'inarm', 'tail', 'head', 'loophead', 'loopend', 'loop')   # annotations inside a fn body that name locals
 ALLOWED_FN_ATTRS = ('#[verifier::loop_isolation(false)]', '#[verifier::spinoff_prover]', '#[verifier::exec_allows_no_decreases_clause]')
 
 LABEL_RE = re.compile(r'\[((?:C\d\d|[a-z]+)\.[A-Za-z0-9_.\-]+)((?:\|C\d\d)*)\]')
@@ -1429,7 +1429,7 @@ class Gen:
                     iv = a.opts.get('var', '__i')
                     tx.edit(ct[kw].start, ct[ob].start,
                             f'{{ let mut {iv}: usize = 0; while {iv} < {expr}.len()', 'R8', 'for-in-&mut desugared to index loop')
-                    pending_inserts.append((ct[ob].start, '\n' + a.text.rstrip() + '\n', 'loop'))
+                    pending_inserts.append((ct[ob].start, '\n' + a.text.rstrip() + '\n', f'hint:{a.line}'))
                     # the counter is advanced *before* BODY so that `continue` in BODY keeps its meaning
                     pending_inserts.append((ct[ob].end, f' let {pat} = &mut {expr}[{iv}]; {iv} += 1;', 'R8'))
                     pending_inserts.append((ct[rl.match_close(ct, ob)].end, ' }', 'R8'))
@@ -1452,7 +1452,7 @@ class Gen:
                     iv = a.opts.get('var', '__i')
                     tx.edit(ct[kw].start, ct[ob].start,
                             f'{{ let mut {iv}: usize = 0; while {iv} < {expr}.len()', 'R10', 'for-in-&mut-IndexMap desugared to index loop')
-                    pending_inserts.append((ct[ob].start, '\n' + a.text.rstrip() + '\n', 'loop'))
+                    pending_inserts.append((ct[ob].start, '\n' + a.text.rstrip() + '\n', f'hint:{a.line}'))
                     pending_inserts.append((ct[ob].end, f' let {pat} = {expr}.get_index_mut({iv}).unwrap(); {iv} += 1;', 'R10'))
                     pending_inserts.append((ct[rl.match_close(ct, ob)].end, ' }', 'R10'))
                     continue
@@ -1473,7 +1473,7 @@ class Gen:
                     iv = a.opts.get('var', '__i')
                     tx.edit(ct[kw].start, ct[ob].start,
                             f'{{ let mut {iv}: usize = 0; while {iv} < {expr}.len()', 'R10', 'for-in-values_mut desugared to index loop')
-                    pending_inserts.append((ct[ob].start, '\n' + a.text.rstrip() + '\n', 'loop'))
+                    pending_inserts.append((ct[ob].start, '\n' + a.text.rstrip() + '\n', f'hint:{a.line}'))
                     pending_inserts.append((ct[ob].end, f' let {pat} = {expr}.get_index_mut({iv}).unwrap().1; {iv} += 1;', 'R10'))
                     pending_inserts.append((ct[rl.match_close(ct, ob)].end, ' }', 'R10'))
                     continue
@@ -1498,7 +1498,7 @@ class Gen:
                     iv = a.opts.get('var', '__it')
                     close = rl.match_close(ct, ob)
                     tx.edit(ct[kw].start, ct[ob].start, f'{{ let mut {iv} = {expr}; loop', 'R12', 'for desugared to loop/match next()')
-                    pending_inserts.append((ct[ob].start, '\n' + a.text.rstrip() + '\n', 'loop'))
+                    pending_inserts.append((ct[ob].start, '\n' + a.text.rstrip() + '\n', f'hint:{a.line}'))
                     pending_inserts.append((ct[ob].end, f' match {iv}.next() {{ None => break, Some({pat}) => {{', 'R12'))
                     pending_inserts.append((ct[close].start, ' } }', 'R12'))
                     pending_inserts.append((ct[close].end, ' }', 'R12'))
@@ -1510,7 +1510,7 @@ class Gen:
                         if ct[j].text in ('(', '['): j = rl.match_close(ct, j)
                         j += 1
                     pending_inserts.append((ct[j].end, f' {a.opts["binder"]}:', 'binder'))
-                pending_inserts.append((ct[ob].start, '\n' + a.text.rstrip() + '\n', 'loop'))
+                pending_inserts.append((ct[ob].start, '\n' + a.text.rstrip() + '\n', f'hint:{a.line}'))
             elif a.kind == 'loophead':
                 # text inserted at the start of loop n's body (ghost snapshots, `broadcast use`, proof hints that must hold
                 # on every path incl. `continue`/`break`).  With desugar=next put @loophead BEFORE the @loop line in the
